@@ -255,7 +255,11 @@ func LangEqual(a, b LangSpec) (bool, string, error) {
 }
 
 // LangAdmitsByte: some string of the language contains byte b (ASCII).
-func LangAdmitsByte(l LangSpec, b byte) (bool, error) {
+func LangAdmitsByte(l LangSpec, b byte) (bool, error) { return LangAdmitsRune(l, rune(b)) }
+
+// LangAdmitsRune: some string of the language contains rune b. For b = U+FFFD this also answers "does the language admit a string
+// with an invalid UTF-8 byte": Go's regexp decodes an invalid byte as U+FFFD (width 1).
+func LangAdmitsRune(l LangSpec, b rune) (bool, error) {
 	// intersect with ".*b.*": equal to empty?
 	with := LangSpec{Pat: l.Pat, Lo: l.Lo, Hi: l.Hi}
 	_ = with
